@@ -1,9 +1,11 @@
 package props
 
 import (
-	"go/ast"
+	"go/constant"
 	"go/token"
+	"go/types"
 	"regexp"
+	"sort"
 	"strings"
 
 	"golang.org/x/tools/go/ssa"
@@ -345,81 +347,169 @@ func c07(c *an.Ctx) {
 	})
 
 	c.Check("R-TABLE", "parseBinlogRowsEvent: WRITE -> after only, UPDATE -> (rows[i], rows[i+1]) behind the even-length test, DELETE -> before only; unknown kinds are errors", 4, func(o *an.O) {
-		fd, pp := p.FuncDecl(lsq, "Binlog.parseBinlogRowsEvent")
-		an.Need(fd != nil, "parseBinlogRowsEvent")
-		var sw *an.SwitchInfo
-		sws := an.Switches(fd, pp)
-		for k := range sws {
-			if strings.Contains(sws[k].Tag, "EventType") {
-				sw = &sws[k]
-			}
+		// Evaluated on the SSA form (helpers inlined): for each event kind the control
+		// flow is explored with the event-type comparisons fixed; the delta literals
+		// that can be reached must set exactly the images that kind carries.
+		fn := c.NeedFunc(lsq, "(*Binlog).parseBinlogRowsEvent")
+		rp0 := p.ExtPkg("github.com/siddontang/go-mysql/replication")
+		an.Need(rp0 != nil, "package replication")
+		kindVal := func(name string) int64 {
+			obj, ok := rp0.Types.Scope().Lookup(name).(*types.Const)
+			an.Need(ok, "replication."+name)
+			n, _ := constant.Int64Val(obj.Val())
+			return n
 		}
-		an.Need(sw != nil, "event type switch")
-		o.SitePos(p.Pos(sw.Node.Pos()))
 		want := map[string]string{
 			"WRITE_ROWS_EVENTv1": "after", "WRITE_ROWS_EVENTv2": "after",
 			"UPDATE_ROWS_EVENTv1": "after,before", "UPDATE_ROWS_EVENTv2": "after,before",
 			"DELETE_ROWS_EVENTv1": "before", "DELETE_ROWS_EVENTv2": "before",
+			"UNKNOWN_EVENT": "", "QUERY_EVENT": "",
 		}
-		seen := map[string]bool{}
-		for _, cl := range sw.Clauses {
-			if cl.Default {
-				if !an.EndsInPanicOrError(cl.Body) {
-					o.Fail(p.Pos(cl.Node.Pos()), "unknown binlog event kinds are silently ignored")
+		isEventType := func(v ssa.Value) bool {
+			n := an.NamedOf(v.Type())
+			return n != nil && n.Obj().Name() == "EventType"
+		}
+		lits := an.StructLits(fn, "delta")
+		nCmp := 0
+		var kinds []string
+		for k := range want {
+			kinds = append(kinds, k)
+		}
+		sort.Strings(kinds)
+		for _, kname := range kinds {
+			kv := kindVal(kname)
+			sim := &an.BoolSim{Fn: fn, Atom: func(v ssa.Value) (bool, bool) {
+				bo, ok := v.(*ssa.BinOp)
+				if !ok || (bo.Op != token.EQL && bo.Op != token.NEQ) {
+					return false, false
 				}
-				continue
-			}
-			// fields set in the delta literal of this clause
-			var fields []string
-			for _, st := range cl.Body {
-				ast.Inspect(st, func(n ast.Node) bool {
-					if lit, ok := n.(*ast.CompositeLit); ok && exprString(lit.Type) == "delta" {
-						var fs []string
-						for _, el := range lit.Elts {
-							if kv, ok := el.(*ast.KeyValueExpr); ok {
-								fs = append(fs, exprString(kv.Key))
-							}
-						}
-						fields = fs
+				for _, pr := range [][2]ssa.Value{{bo.X, bo.Y}, {bo.Y, bo.X}} {
+					cv, ok := an.ConstInt(pr[1])
+					if !ok || !isEventType(pr[0]) {
+						continue
 					}
-					return true
-				})
+					nCmp++
+					return (cv == kv) == (bo.Op == token.EQL), true
+				}
+				return false, false
+			}}
+			reached := sim.Run()
+			nl := 0
+			for _, l := range lits {
+				if !reached[l.Alloc.Block()] {
+					continue
+				}
+				nl++
+				o.Site(l.Alloc)
+				var fs []string
+				for _, f := range []string{"after", "before"} {
+					if v := l.Fields[f]; v != nil && !isConstNil(v) {
+						fs = append(fs, f)
+					}
+				}
+				if got := strings.Join(fs, ","); got != want[kname] {
+					o.FailAt(l.Alloc, "%s builds deltas with {%s}, expected {%s}: queries matching only the other image of the row are not invalidated", kname, got, want[kname])
+				}
 			}
-			got := strings.Join(sortedCopy(fields), ",")
-			for _, t := range cl.Types {
-				seen[t] = true
-				o.SitePos(p.Pos(cl.Node.Pos()))
-				if w, ok := want[t]; ok && w != got {
-					o.Fail(p.Pos(cl.Node.Pos()), "%s builds deltas with {%s}, expected {%s}: queries matching only the other image of the row are not invalidated", t, got, w)
+			if want[kname] != "" && nl == 0 {
+				o.Fail(p.Pos(fn.Pos()), "no case for %s: its row changes produce no deltas", kname)
+			}
+			if want[kname] == "" {
+				for _, e := range an.Exits(fn, false) {
+					ret, ok := e.(*ssa.Return)
+					if !ok || !reached[e.Block()] {
+						continue
+					}
+					for _, ev := range sim.ValuesAt(an.ResultAt(ret, 1), e.Block()) {
+						if isConstNil(ev) {
+							o.FailAt(e, "unknown binlog event kinds are silently ignored")
+						}
+					}
 				}
 			}
 		}
-		for t := range want {
-			if !seen[t] {
-				o.Fail(p.Pos(sw.Node.Pos()), "no case for %s", t)
+		if nCmp == 0 {
+			o.Fail(p.Pos(fn.Pos()), "parseBinlogRowsEvent no longer distinguishes event kinds")
+		}
+		// update pairing: rows[i] / rows[i+1] of one loop variable, behind the even-length test
+		rowIndex := func(v ssa.Value) ssa.Value { // v = parseBinlogRow(schema, Rows[X], cm)#0 -> X
+			ex, ok := v.(*ssa.Extract)
+			if !ok {
+				return nil
 			}
-		}
-		// update pairing
-		fn := c.NeedFunc(lsq, "(*Binlog).parseBinlogRowsEvent")
-		okEven := false
-		for _, e := range an.Exits(fn, false) {
-			if !isConstNil(an.ResultAt(e.(*ssa.Return), 1)) && strings.Contains(strings.Join(an.GuardStrings(e.Block()), " "), "% 2) != 0)") {
-				okEven = true
+			call, ok := ex.Tuple.(*ssa.Call)
+			if !ok || !an.Mod(lsq, "", "parseBinlogRow").Matches(call.Common()) {
+				return nil
 			}
+			ld, ok := call.Call.Args[1].(*ssa.UnOp)
+			if !ok {
+				return nil
+			}
+			ia, ok := ld.X.(*ssa.IndexAddr)
+			if !ok || !strings.HasSuffix(an.Expr(ia.X), ".Rows") {
+				return nil
+			}
+			return ia.Index
 		}
-		if !okEven {
-			o.Fail(p.Pos(fn.Pos()), "an odd number of rows in an update event is no longer rejected")
-		}
-		for _, l := range an.StructLits(fn, "delta") {
+		var pairLits []ssa.Instruction
+		for _, l := range lits {
 			b, a := l.Fields["before"], l.Fields["after"]
 			if b == nil || a == nil {
 				continue
 			}
 			o.Site(l.Alloc)
-			be, ae := an.Expr(b), an.Expr(a)
-			if !strings.Contains(be, ".Rows[phi:i]") || !strings.Contains(ae, ".Rows[(phi:i + 1)]") {
-				o.FailAt(l.Alloc, "update delta pairs before=%s after=%s, expected rows[i] / rows[i+1]", an.Short(be, 60), an.Short(ae, 60))
+			pairLits = append(pairLits, l.Alloc)
+			bi, ai := rowIndex(b), rowIndex(a)
+			okPair := false
+			if bi != nil && ai != nil {
+				if add, ok := ai.(*ssa.BinOp); ok && add.Op == token.ADD && add.X == bi {
+					if n, ok := an.ConstInt(add.Y); ok && n == 1 {
+						_, okPair = bi.(*ssa.Phi)
+					}
+				}
 			}
+			if !okPair {
+				o.FailAt(l.Alloc, "update delta pairs before=%s after=%s, expected rows[i] / rows[i+1]", an.Short(an.Expr(b), 60), an.Short(an.Expr(a), 60))
+			}
+		}
+		okEven := false
+		for _, b := range fn.Blocks {
+			iff, ok := b.Instrs[len(b.Instrs)-1].(*ssa.If)
+			if !ok {
+				continue
+			}
+			bo, ok := iff.Cond.(*ssa.BinOp)
+			if !ok || (bo.Op != token.EQL && bo.Op != token.NEQ) {
+				continue
+			}
+			rem, ok := bo.X.(*ssa.BinOp)
+			if !ok || rem.Op != token.REM || !strings.Contains(an.Expr(rem.X), ".Rows)") {
+				continue
+			}
+			if n, ok := an.ConstInt(rem.Y); !ok || n != 2 {
+				continue
+			}
+			if z, ok := an.ConstInt(bo.Y); !ok || z != 0 {
+				continue
+			}
+			odd := b.Succs[0]
+			if bo.Op == token.EQL {
+				odd = b.Succs[1]
+			}
+			r := an.Reach(fn, odd.Instrs[0], an.NewBlocker())
+			bad := false
+			for _, pl := range pairLits {
+				if r[pl] || odd.Instrs[0] == pl {
+					bad = true
+				}
+			}
+			if !bad {
+				okEven = true
+				o.Site(iff)
+			}
+		}
+		if !okEven {
+			o.Fail(p.Pos(fn.Pos()), "an odd number of rows in an update event is no longer rejected")
 		}
 		// column maps dropped when the table id changes
 		rp := c.NeedFunc(lsq, "(*Binlog).RunPollLoop")
